@@ -253,9 +253,11 @@ class RawMeshData:
     def _complete_edges_from_faces(self):
         if self.faces.empty() : return # nothing to do
         
-        # Create hard edges attribute for already existing edges
-        hard_edges = self.edges.create_attribute("hard_edges", bool)
-        for e in self.id_edges: hard_edges[e] = True
+        # Create hard edges attribute for already existing edges.
+        # If the attribute already exists (data of an already built mesh), the edges completed earlier are not declared ones.
+        if not self.edges.has_attribute("hard_edges"):
+            hard_edges = self.edges.create_attribute("hard_edges", bool)
+            for e in self.id_edges: hard_edges[e] = True
         
         edge_set = set([utils.keyify(e) for e in self.edges])
         for f in self.faces:
